@@ -63,16 +63,21 @@ def CS.init : List (List Sample) → Option CS
 
 /-! ### boundedSeriesIterator as an iterator (pkg/dedup/iter.go) -/
 
+/-- `stopped` records that `Seek` was called with a target beyond `maxt` (it answers `ValNone`
+    without touching the wrapped iterator); no method reads it -/
 structure Bnd (σ : Type) where
   inner : σ
   bad : Bool
+  stopped : Bool
 
 def bndOps {σ : Type} (o : Ops σ) (mint maxt : Int) : Ops (Bnd σ) where
   next := fun s =>
     match bNext o mint maxt s.inner with
     | some r => ({ s with inner := r.1 }, r.2)
     | none => ({ s with bad := true }, false)
-  seek := fun t s => ({ s with inner := (bSeek o mint maxt t s.inner).1 }, (bSeek o mint maxt t s.inner).2)
+  seek := fun t s =>
+    ({ s with inner := (bSeek o mint maxt t s.inner).1, stopped := s.stopped || decide (t > maxt) },
+     (bSeek o mint maxt t s.inner).2)
   atS := fun s => o.atS s.inner
   atT := fun s => o.atT s.inner
   adjust := fun _ s => s
@@ -82,7 +87,7 @@ def bndOps {σ : Type} (o : Ops σ) (mint maxt : Int) : Ops (Bnd σ) where
 /-- `chunkSeries.Iterator` for raw chunks: `NewBoundedSeriesIterator(newChunkSeriesIterator(its), mint, maxt)` -/
 def chunkSeriesIt (mint maxt : Int) (chunks : List (List Sample)) : Option AnyIt :=
   (CS.init chunks).map fun s =>
-    { σ := Bnd CS, ops := bndOps csOps mint maxt, st := { inner := s, bad := false } }
+    { σ := Bnd CS, ops := bndOps csOps mint maxt, st := { inner := s, bad := false, stopped := false } }
 
 /-! ### stores, proxy (specification) and querier -/
 
